@@ -116,6 +116,9 @@ type Result struct {
 	Trace       []uint16
 	Blocked     []string // wait-for description at deadlock / step-limit
 	Leftover    int      // tasks not finished when the simulation ended
+	ClockJumps  int64    // virtual-clock dilations injected at decision points
+	TimerFires  int64    // sleeping tasks woken because their (virtual) deadline passed
+	IdleJumps   int64    // clock jumps to the next timer because nothing was runnable
 }
 
 type Sim struct {
@@ -128,6 +131,8 @@ type Sim struct {
 	prng  PRNG // task priority stream
 	now   int64
 	steps int64
+
+	clockJumps, timerFires, idleJumps int64
 
 	decisions   int64
 	preemptions int64
@@ -227,6 +232,7 @@ func (s *Sim) wakeSleepers() {
 		if t.state == tsSleeping && t.wake <= s.now {
 			t.state = tsRunnable
 			t.waitKind = WaitNone
+			s.timerFires++
 		}
 	}
 }
@@ -261,6 +267,7 @@ func (s *Sim) pick(self *Task) *Task {
 			return nil
 		}
 		s.now = next
+		s.idleJumps++
 		if s.now > s.cfg.MaxVirtualNs {
 			s.outcome = "time-limit"
 			return nil
@@ -340,6 +347,7 @@ func (s *Sim) schedule(self *Task) {
 	self.steps++
 	if s.cfg.DilateP > 0 && s.trng.Float64() < s.cfg.DilateP {
 		s.now += s.trng.Int63n(s.cfg.DilateMax + 1)
+		s.clockJumps++
 	}
 	if s.steps > s.cfg.MaxSteps {
 		s.finish("step-limit")
@@ -650,7 +658,8 @@ func Run(cfg Config, root func()) Result {
 	<-s.doneCh
 	// teardown
 	res := Result{Outcome: s.outcome, PanicVal: s.panicVal, PanicStack: s.panicStack, PanicTask: s.panicTask,
-		Steps: s.steps, Decisions: s.decisions, Preemptions: s.preemptions, VirtualNs: s.now, Tasks: len(s.allTasks)}
+		Steps: s.steps, Decisions: s.decisions, Preemptions: s.preemptions, VirtualNs: s.now, Tasks: len(s.allTasks),
+		ClockJumps: s.clockJumps, TimerFires: s.timerFires, IdleJumps: s.idleJumps}
 	res.Trace = make([]uint16, s.tlen)
 	copy(res.Trace, s.trace[:s.tlen])
 	if res.Outcome != "ok" {
